@@ -1295,7 +1295,20 @@ ares_status_t ares_send_query(ares_server_t *requested_server,
      * error codes */
     case ARES_ECONNREFUSED:
     case ARES_EBADFAMILY:
-      handle_conn_error(conn, ARES_TRUE, status);
+      {
+        unsigned short qid = query->qid;
+
+        handle_conn_error(conn, ARES_TRUE, status);
+
+        /* Closing the connection requeues the other queries on it, which may
+         * end them and invoke callbacks.  A callback calling ares_cancel()
+         * also cancels and frees the query we are sending, so look it up
+         * again (same approach as the requeue list in read_answers()). */
+        query = ares_htable_szvp_get_direct(channel->queries_by_qid, qid);
+        if (query == NULL) {
+          return ARES_ECANCELLED;
+        }
+      }
       status = ares_requeue_query(query, now, status, ARES_TRUE, NULL, NULL);
       if (status == ARES_ETIMEOUT) {
         status = ARES_ECONNREFUSED;
